@@ -103,8 +103,19 @@ P("inprogress", ESPCONN_INPROGRESS);
 P("maxnum", ESPCONN_MAXNUM);
 P("activityTimeout", ACTIVITY_TIMEOUT);
 """, includes_c=["supla_esp.h", "supla_esp_devconn.h", "espconn.h"])
+    d = run_probe("p_dns", """
+P("dns_servers", DNS_SERVER_COUNT); P("dns_minLen", DOMAIN_MIN_LEN); P("dns_maxLen", DOMAIN_MAX_LEN);
+P("dns_hdrLen", sizeof(unsigned short) + sizeof(_t_dns_header));
+P("dns_qSuffix", sizeof(_t_dns_question_suffix)); P("dns_aSuffix", sizeof(_t_dns_answer_suffix));
+P("dns_off_ancount", sizeof(unsigned short) + offsetof(_t_dns_header, ANCOUNT));
+P("dns_off_type", offsetof(_t_dns_answer_suffix, TYPE)); P("dns_off_class", offsetof(_t_dns_answer_suffix, CLASS));
+P("dns_off_rdlen", offsetof(_t_dns_answer_suffix, RDLENGTH));
+P("dns_typeA", TYPE_A); P("dns_classIN", CLASS_IN); P("dns_timeout", DNS_TIMEOUT_PER_REQUEST_MS); P("dns_retry", RETRY_DELAY_MS);
+{ _t_dns_header h; memset(&h, 0, sizeof(h)); h.RCODE = 15; P("dns_rcode_byte", ((unsigned char*)&h)[3]); }
+""", includes_c=[C.REPO + "/src/user/supla_esp_dns_client.c"])
     a.update(b)
     a.update(c)
+    a.update(d)
     return a
 
 
@@ -113,6 +124,7 @@ def emit_consts():
     lines = [
         "/- GENERATED by tools/extract.py from /repo (proto.c, srpc.c, supla_esp.h) - do not edit -/",
         "import SuplaVerif.Model.Proto",
+        "import SuplaVerif.Model.Dns",
         "namespace SuplaVerif.Gen",
         "",
         "def protoParams : ProtoParams :=",
@@ -141,6 +153,16 @@ def emit_consts():
         "def callAllowed (id : Nat) : Bool := minVer id == 0 || decide (espProtoVer ≥ minVer id)",
         "theorem esp_uses_max_version : espProtoVer = protoParams.ver := by decide",
         "theorem protoParams_wf : protoParams.WF := ⟨by decide, by decide, by decide⟩",
+        "",
+        "def dnsParams : DnsParams :=",
+        "  { servers := %s, minLen := %s, maxLen := %s, hdrLen := %s, qSuffix := %s, aSuffix := %s }" % (
+            k["dns_servers"], k["dns_minLen"], k["dns_maxLen"], k["dns_hdrLen"], k["dns_qSuffix"], k["dns_aSuffix"]),
+        "def dnsTimeoutMs : Nat := %s" % k["dns_timeout"],
+        "def dnsRetryMs : Nat := %s" % k["dns_retry"],
+        "/-- field offsets / literals of the reply parser the model hard-codes -/",
+        "theorem dns_layout_ok : (%s, %s, %s, %s, %s, %s, %s) = (8, 0, 2, 8, 1, 1, 15) := by decide" % (
+            k["dns_off_ancount"], k["dns_off_type"], k["dns_off_class"], k["dns_off_rdlen"], k["dns_typeA"],
+            k["dns_classIN"], k["dns_rcode_byte"]),
         "",
         "end SuplaVerif.Gen",
         "",
